@@ -86,7 +86,7 @@ def sym_grid(ctx, name: str, D: int, seed: int = 0, k: int = 0, sizes="int", ali
     c = ctx.reals(name + ("o" if origin else "c"), pick(CENTERS, seed, k)[:D], nice=(-16, 16))
     R = sym_rotation(ctx, name + "r", D, seed, k, flip) if rotation else None
     if sizes == "int":
-        n = ctx.ints(name + "n", pick(SIZES, seed, k)[:D], ge=min_size, le=4096)
+        n = ctx.ints(name + "n", [max(v, min_size + (v % 3)) for v in pick(SIZES, seed, k)[:D]], ge=min_size, le=4096)
     elif sizes is None:
         n = pick(SIZES, seed, k)[:D]
     else:
@@ -100,6 +100,24 @@ def sym_grid(ctx, name: str, D: int, seed: int = 0, k: int = 0, sizes="int", ali
         kw["center"] = c
     g = Grid(**kw)
     return g, dict(s=s, c=c, R=R if R is not None else torch.eye(D), n=n)
+
+
+def related_grid(ctx, g, P, name: str, D: int, relation: str, align_corners: bool = True):
+    """Second grid in a special relation to g: 'same-domain' (same cube, other sampling),
+    'same-sampling' (same size/spacing/direction, other center)."""
+    from deepali.core.grid import Grid
+
+    if relation == "same-domain":
+        m = ctx.ints(name + "n", [k + 3 for k in pick(SIZES, ctx.seed, 2)[:D]], ge=2, le=4096)
+        n = torch.as_tensor(P["n"], dtype=P["s"].dtype)
+        s2 = P["s"] * (n - 1) / (m - 1) if align_corners else P["s"] * n / m
+        h = Grid(size=m, spacing=s2, center=P["c"], direction=P["R"], align_corners=align_corners)
+        return h, dict(s=s2, c=P["c"], R=P["R"], n=m)
+    if relation == "same-sampling":
+        c2 = ctx.reals(name + "c", pick(CENTERS, ctx.seed, 2)[:D], nice=(-16, 16))
+        h = Grid(size=P["n"], spacing=P["s"], center=c2, direction=P["R"], align_corners=align_corners)
+        return h, dict(s=P["s"], c=c2, R=P["R"], n=P["n"])
+    raise ValueError(relation)
 
 
 # ---------------------------------------------------------------------- reference model (ITK image geometry)
